@@ -1,0 +1,96 @@
+//go:build verif
+
+package httpsender
+
+// Contracts for the deductive checks in /verif (comment-only; no code).
+// Property C10, the HTTP sender half: what is put on the wire is the message given, with the
+// publisher ID appended to every address, encoded once, sent to every announce URL.
+
+
+// A sender built by New has a client and at least one announce URL.
+//@ spec func hsOK(s val) bool = s != nil && s.client != nil && len(s.announceURLs) >= 1
+
+//@ func New
+//@   property C10
+//@   requires nonnilelems(announceURLs)
+//@   ensures result1 == nil ==> hsOK(result0) && result0.peerID == peerID
+//@   ensures result1 != nil ==> result0 == nil
+//@   ensures len(announceURLs) == 0 ==> result1 != nil
+//@   loop 1: invariant rangeindex < len(announceURLs) && (rangeindex >= 0 ==> len(urls) >= 1) && all(k, has(seen, k) ==> len(urls) >= 1) && urls != nil && seen != nil && nonnilelems(announceURLs)
+
+// Send / SendJson: the publisher ID is added to the addresses first; a failure there sends nothing;
+// the sender's extra data replaces the message's iff it is non-empty; the message is encoded exactly
+// once (CBOR / JSON) and that buffer is what is sent, flagged with the matching content type.
+//@ func (*Sender).Send
+//@   property C10
+//@   requires hsOK(s) && ctx != nil
+//@   ghost idFailed := false
+//@   at call addIDToAddrs#1: after ghost idFailed := result != nil
+//@   at call MarshalCBOR#1: assert msg.ExtraData == ite(len(s.extraData) != 0, s.extraData, old(msg.ExtraData)) && payload(arg1) == buf
+//@   at call sendData#1: assert arg2 == buf && arg3 == false
+//@   ensures-local idFailed ==> result != nil && count("call:MarshalCBOR") == 0 && count("call:sendData") == 0
+//@   ensures-local !idFailed ==> count("call:MarshalCBOR") == 1 && count("call:sendData") <= 1 && before("call:MarshalCBOR", "call:sendData")
+//@   ensures-local result == nil ==> count("call:sendData") == 1
+
+//@ func (*Sender).SendJson
+//@   property C10
+//@   requires hsOK(s) && ctx != nil
+//@   ghost idFailed := false
+//@   at call addIDToAddrs#1: after ghost idFailed := result != nil
+//@   at call NewEncoder#1: assert payload(arg0) == buf
+//@   at call Encode#1: assert msg.ExtraData == ite(len(s.extraData) != 0, s.extraData, old(msg.ExtraData))
+//@   at call sendData#1: assert arg2 == buf && arg3 == true
+//@   ensures-local idFailed ==> result != nil && count("call:Encode") == 0 && count("call:sendData") == 0
+//@   ensures-local !idFailed ==> count("call:Encode") == 1 && count("call:sendData") <= 1 && before("call:Encode", "call:sendData")
+//@   ensures-local result == nil ==> count("call:sendData") == 1
+
+// addIDToAddrs: the decoded addresses of the message, paired with this sender's publisher ID, are
+// turned into /p2p addresses, and exactly those replace the message's addresses; a message without
+// addresses is left alone.
+//@ func (*Sender).addIDToAddrs
+//@   property C10
+//@   requires s != nil && msg != nil
+//@   modifies msg.Addrs
+//@   ghost got := zero("peer.AddrInfo").Addrs
+//@   ghost p2p := zero("peer.AddrInfo").Addrs
+//@   at call GetAddrs#1: assert arg0 == msg
+//@   at call GetAddrs#1: after ghost got := result0
+//@   at call AddrInfoToP2pAddrs#1: assert arg0.ID == s.peerID && arg0.Addrs == got
+//@   at call AddrInfoToP2pAddrs#1: after ghost p2p := result0
+//@   at call SetAddrs#1: assert arg0 == msg && arg1 == p2p
+//@   ensures-local old(len(msg.Addrs)) == 0 ==> result == nil && count("call:SetAddrs") == 0
+//@   ensures-local old(len(msg.Addrs)) != 0 && result == nil ==> count("call:GetAddrs") == 1 && count("call:AddrInfoToP2pAddrs") == 1 && count("call:SetAddrs") == 1
+//@   ensures-local result != nil ==> count("call:SetAddrs") == 0
+
+// sendAnnounce: one PUT of the given buffer to the given URL with the content type that matches the
+// encoding; only 200 and 204 count as success.
+//@ func (*Sender).sendAnnounce
+//@   property C10
+//@   requires s != nil && s.client != nil && ctx != nil
+//@   at call NewRequestWithContext#1: assert str(arg1) == str("PUT") && str(arg2) == str(announceURL) && payload(arg3) == buf
+//@   at call Do#1: assert arg1 == req
+//@   ensures-local count("call:Do") <= 1
+//@   ensures-local result == nil ==> count("call:Do") == 1 && (resp.StatusCode == 200 || resp.StatusCode == 204)
+
+// sendData: with one URL the buffer goes to that URL; with several, one goroutine per URL gets its own
+// copy of the encoded bytes and exactly as many results are collected as goroutines were started.
+//@ func (*Sender).sendData
+//@   property C10
+//@   requires hsOK(s) && ctx != nil && buf != nil
+//@   mayblock
+//@   at call sendAnnounce#1: assert str(arg2) == str(s.announceURLs[0]) && arg3 == buf && arg4 == js
+//@   loop 1: exhaustive
+//@   loop 1: iteration ensures itercount("go:sendData$1") == 1
+//@   loop 2: exhaustive
+//@   loop 2: invariant 0 <= i && i <= len(s.announceURLs) && errChan != nil
+//@   loop 2: iteration ensures itercount("recv:errChan") == 1
+
+// The goroutine of sendData: sends its own buffer over the encoded bytes to its URL and reports
+// exactly one result.
+//@ func (*Sender).sendData$1
+//@   property C10
+//@   requires s != nil && s.client != nil && ctx != nil && errChan != nil && !closed(errChan)
+//@   mayblock
+//@   at call NewBuffer#1: assert arg0 == data
+//@   at call sendAnnounce#1: assert str(arg2) == str(announceURL) && arg4 == js
+//@   ensures-local count("send:errChan") == 1 && count("call:sendAnnounce") == 1 && before("call:sendAnnounce", "send:errChan")
